@@ -17,7 +17,7 @@ from datetime import datetime, timezone
 from typing import Any, Dict, List, Optional
 
 from .. import core, tlc
-from ..gamma import g_ctx, g_data, g_data_plain, g_prog, g_val, prog_key
+from ..gamma import ABSENT, g_ctx, g_data, g_data_plain, g_prog, g_val, prog_key
 from ..pool import pmap
 from .c06 import DETAILS, MODES, tlc_checks
 
